@@ -12,7 +12,8 @@ TRUSTED = ["HOME is redirected to a scratch directory; QJsonDocument parses the 
 KEYS = [b"port", b"name", b"token", b"a", b"zz", b"Token"]
 VALS = [b"8080", b"x", b"", b"v w", b"<b>"]
 HNAMES = [b"X-Auth-Token", b"x-auth-token", b"X-Other", b"Authorization"]
-HVALS = [b"<TOKEN>", b" <TOKEN> ", b"<TOKEN:upper>", b"<TOKEN:nobrace>", b"<TOKEN:prefix>", b"", b"<PREV>", b"<TOKEN>x", b"{}", b"x"]
+HVALS = [b"<TOKEN>", b" <TOKEN> ", b"<TOKEN:upper>", b"<TOKEN:nobrace>", b"<TOKEN:prefix>", b"", b"<PREV>", b"<TOKEN>x", b"{}", b"x",
+         b"<TOKEN:cyc256>", b"<TOKEN:cyc512>", b"<TOKEN:cyc255>", b"<TOKEN:cyc38>", b"<TOKEN>" + b"j" * 256]
 
 
 def cases(tier, seed, ctx=None):
